@@ -33,7 +33,7 @@ func TestVerifC15FreeRun(t *testing.T) {
 		t.Fatalf("reference server anchors: %v", err)
 	}
 	c := vf15Evidence()
-	c.Rule("freerun: free-running wire (random segmentation by a seeded PRNG), reference server in its own goroutine through refss.Accept/Serve on the net.Conn, client reader and writer concurrent; two connections per case on one factory, the second uses the ticket issued on the first when one was issued; generated: padding, write sizes both ways, packet padding, ticket/seed packets; oracle: both streams equal at the end; every case counts as non-trivial only if the second connection used a ticket; fingerprint = generated plan")
+	c.Rule("freerun: free-running wire (random segmentation by a seeded PRNG), reference server in its own goroutine through refss.Accept/Serve on the net.Conn, client reader and writer concurrent; two connections per case on one factory, the second uses the ticket issued on the first when one was issued; generated: padding, write sizes both ways, packet padding, ticket/seed packets; oracle: at the final quiescence (server silent after its flight, client application done writing, client reader parked) everything the server sent has been delivered and the NEW_TICKET is in the store, without any further traffic; both streams equal at EOF; every case counts as non-trivial only if the second connection used a ticket; fingerprint = generated plan")
 	detrand.Real()
 	rapid.Check(t, func(rt *rapid.T) {
 		k := rapid.Uint64().Draw(rt, "seed")
@@ -75,6 +75,9 @@ func TestVerifC15FreeRun(t *testing.T) {
 			}
 
 			writerDone := make(chan struct{})
+			srvIdleCh, clientChecked := make(chan struct{}), make(chan struct{})
+			var idleOnce sync.Once
+			srvIdle := func() { idleOnce.Do(func() { close(srvIdleCh) }) }
 			var wdOnce sync.Once
 			closeWriterDone := func() { wdOnce.Do(func() { close(writerDone) }) }
 			// ---- server goroutine
@@ -85,6 +88,7 @@ func TestVerifC15FreeRun(t *testing.T) {
 			wg.Add(1)
 			go func() {
 				defer wg.Done()
+				defer srvIdle()
 				conn := n.Conn(wire.B)
 				defer conn.Close()
 				h, rest, err := srv.Accept(conn)
@@ -143,14 +147,10 @@ func TestVerifC15FreeRun(t *testing.T) {
 						return
 					}
 				}
-				// client data has arrived, so the handshake is over on its side:
-				// this packet flushes whatever is parked behind the response
-				if _, err := conn.Write(sess.Packet(refss.FlagPayload, nil, 0)); err != nil {
-					srvErr = fmt.Errorf("write: %w", err)
-					return
-				}
 				// when the client application has finished writing, parse the rest
-				// (trailing padding) and close: the client reads up to EOF
+				// (trailing padding); the server sends nothing more.  It closes only
+				// after the harness has looked at the client at quiescence: an EOF
+				// would make the client process whatever it has left unprocessed.
 				<-writerDone
 				for consumed < n.Written(wire.A) {
 					if !readSome() {
@@ -160,6 +160,8 @@ func TestVerifC15FreeRun(t *testing.T) {
 				if sess.Buffered() != 0 {
 					srvErr = fmt.Errorf("%d trailing bytes from the client do not form a packet", sess.Buffered())
 				}
+				srvIdle()
+				<-clientChecked
 			}()
 
 			// ---- client
@@ -180,6 +182,8 @@ func TestVerifC15FreeRun(t *testing.T) {
 			})
 			var wres, rres drive.Result
 			var got []byte
+			var gmu sync.Mutex
+			var stalled, ticketStalled string
 			if !res.Failed() && res.Err == nil {
 				var cwg sync.WaitGroup
 				cwg.Add(1)
@@ -197,16 +201,65 @@ func TestVerifC15FreeRun(t *testing.T) {
 						return nil
 					})
 				}()
-				rres = drive.Call(90*time.Second, func() error {
-					var err error
-					got, err = io.ReadAll(conn)
-					return err
-				})
+				readerDone := make(chan struct{})
+				go func() {
+					defer close(readerDone)
+					rres = drive.Call(90*time.Second, func() error {
+						buf := make([]byte, 4096)
+						for {
+							m, err := conn.Read(buf)
+							gmu.Lock()
+							got = append(got, buf[:m]...)
+							gmu.Unlock()
+							if err == io.EOF {
+								return nil
+							}
+							if err != nil {
+								return err
+							}
+						}
+					})
+				}()
 				cwg.Wait()
+				<-srvIdleCh
+				// Final quiescence: the server has written everything (the free-running
+				// wire released it at once) and is silent, the client application has
+				// finished writing, the client's reader is parked in the network read
+				// with nothing deliverable.  Everything the server sent must have been
+				// delivered and a NEW_TICKET must be in the store — nothing more will
+				// arrive to make the client look at its buffer again.
+				qch := make(chan error, 1)
+				go func() { qch <- n.WaitQuiescent(wire.A) }()
+				select {
+				case qerr := <-qch:
+					if qerr == nil {
+						gmu.Lock()
+						have := len(got)
+						gmu.Unlock()
+						if have != len(sAll) {
+							stalled = fmt.Sprintf("VIOL[c15-stream-stalled]: connection %d: the server has sent %d payload bytes in %d stream bytes and is silent, all of it has been read off the wire (%d bytes), the client has delivered %d and is parked in the network read",
+								connNo, len(sAll), n.Written(wire.B), n.Consumed(wire.B), have)
+						}
+						if newTicket != nil {
+							st := cf.(*ssClientFactory).ticketStore
+							st.Lock()
+							t := st.store["192.0.2.15:443"]
+							ok := t != nil && bytes.Equal(t.ticket[:], newTicket.Blob[:]) && bytes.Equal(t.key[:], newTicket.Master[:])
+							st.Unlock()
+							if !ok {
+								ticketStalled = fmt.Sprintf("VIOL[c15-ticket-stalled]: connection %d: the NEW_TICKET packet has been read off the wire and the client is parked in the network read, but the ticket is not in the store", connNo)
+							}
+						}
+					}
+				case <-readerDone:
+				}
+				close(clientChecked)
+				<-readerDone
 				_ = conn.Close()
 			} else {
 				n.Shutdown()
 				closeWriterDone()
+				close(clientChecked)
 			}
 			wg.Wait()
 			watchdog.Stop()
@@ -227,6 +280,10 @@ func TestVerifC15FreeRun(t *testing.T) {
 				fail("VIOL[c15-write-error]: client Write failed: %v", wres.Err)
 			case rres.Err != nil:
 				fail("VIOL[c15-read-error]: client Read failed on an unmodified stream after %d bytes: %v", len(got), rres.Err)
+			case stalled != "":
+				fail("%s", stalled)
+			case ticketStalled != "":
+				fail("%s", ticketStalled)
 			case !bytes.Equal(got, sAll):
 				fail("VIOL[c15-stream-short]: client read %d bytes up to EOF, server sent %d, first difference at %d", len(got), len(sAll), vf15FirstDiff(got, sAll))
 			}
@@ -237,7 +294,7 @@ func TestVerifC15FreeRun(t *testing.T) {
 				rt.Fatalf("VIOL[c15-upstream]: server decoded %d bytes, client wrote %d\nplan: %v", len(sess.Rx), len(cAll), plan)
 			}
 			if newTicket != nil {
-				issued = newTicket // the client has read up to EOF, so it has processed NEW_TICKET
+				issued = newTicket // seen in the store at the final quiescence
 			}
 		}
 		usedTicket := issued != nil
